@@ -143,10 +143,10 @@ type serverConn struct {
 }
 
 func (sc *serverConn) closeIdleConn() {
-	sc.writeGoAway(0, NoError, "connection has been idle for a long time")
-	if sc.debug {
-		sc.logger.Printf("Connection is idle. Closing\n")
-	}
+	// Whether the connection is idle is for the stream loop to say: the timer
+	// is wound up when a request starts, and a request that takes longer than
+	// the idle time to answer is anything but idle.
+	//
 	// Told, not closed: the stream loop re-arms the idle timer on every
 	// request, and re-arming a timer that has fired runs this again. Closing
 	// the channel a second time would panic on the timer's goroutine, which
@@ -656,6 +656,21 @@ loop:
 
 		select {
 		case <-sc.closer:
+			// The idle timer. With requests in the table the connection is
+			// not idle: a GOAWAY now would name them as accepted and the
+			// close that follows would cut them off. The timer starts again.
+			if len(strms) != 0 {
+				sc.maxIdleTimer.Reset(sc.maxIdleTime)
+
+				continue
+			}
+
+			sc.writeGoAway(0, NoError, "connection has been idle for a long time")
+
+			if sc.debug {
+				sc.logger.Printf("Connection is idle. Closing\n")
+			}
+
 			break loop
 		case strm := <-sc.handlerDone:
 			strm.handlerRunning = false
